@@ -87,8 +87,26 @@ def canon(v):
     if isinstance(v, (list, tuple)):
         return [canon(x) for x in v]
     if isinstance(v, dict):
-        return {k: canon(v[k]) for k in sorted(v)}
+        d = {_key_str(k): canon(x) for k, x in v.items()}
+        return {k: d[k] for k in sorted(d)}
     raise TypeError(v)
+
+
+def _key_str(k):
+    """how json.dumps (and JsonUtil.sanitize) spells a dict key"""
+    if isinstance(k, str):
+        return k
+    if k is True:
+        return 'true'
+    if k is False:
+        return 'false'
+    if k is None:
+        return 'null'
+    if isinstance(k, int):
+        return str(int(k))
+    if isinstance(k, float):
+        return float.__repr__(k)
+    raise TypeError(k)
 
 
 def exc_cls(e):
